@@ -5,6 +5,7 @@ pair by pair (all 17 × 17 atomic types, all six operators), outside the finding
 import EPV.Lemmas.CompareBasic
 import EPV.Lemmas.CompareFindings
 import EPV.Lemmas.CalendarSpec
+import EPV.Lemmas.CompareDuration
 set_option linter.unusedSimpArgs false
 namespace EPV.Cmp
 open EPV.CmpSpec EPV.CmpFind
@@ -212,13 +213,6 @@ theorem dtCompare_eq_six (op : Op) (x y : DT) (h : dtFarOK x y = true) :
     · cases op <;> simp [iCmp, cmpBy, six] <;> grind
   · cases op <;> simp [iCmp, cmpBy, six]
 
-/-- ordering of two xs:yearMonthDuration values goes through `months2days` (calendar arithmetic, the
-subject of C11): excluded from the pairwise theorem, covered by the correspondence only -/
-def ymdOrd (op : Op) (a b : Atom) : Bool :=
-  match a, b with
-  | .ymd _, .ymd _ => op.isOrd
-  | _, _ => false
-
 /-- the octet loop of binary.py is the lexicographic order of the octet lists -/
 theorem bytesLt_eq_lex (a b : List Nat) : bytesLt a b = decide (a < b) := by
   induction a generalizing b with
@@ -244,7 +238,7 @@ exactly the incomparable type pairs. -/
 theorem valuePair_conforms (m : Mode) (op : Op) (a b : Atom) (hua : isUA a = false) (hub : isUA b = false)
     (h1 : trigTol true op a b = false) (h2 : trigPromotion true a b = false)
     (h4 : ∀ e, getDouble a ≠ .error e) (h5 : ∀ e, getDouble b ≠ .error e)
-    (h6 : ymdOrd op a b = false) (h8 : dtConsistent a b = true) :
+    (h8 : dtConsistent a b = true) :
     valuePair m op a b = valueOp (binOrdered m) op a b := by
   cases hi : numRank a with
   | some i =>
@@ -260,7 +254,7 @@ theorem valuePair_conforms (m : Mode) (op : Op) (a b : Atom) (hua : isUA a = fal
       done)
     all_goals
       cases op <;> simp_all [six, Op.swap, strLt, strLtS, strEqS, PyR.map, Op.isEqNe, Op.isOrd, isQN, isStr,
-        isUA, ymdOrd, durCmp4_dtd, iCmp, cmpBy]
+        isUA, durCmp4_dtd, durCmp4_ymd, iCmp, cmpBy]
     all_goals first
       | grind
       | (rename_i x y; cases x <;> cases y <;> decide +kernel)
